@@ -366,12 +366,47 @@ pub(crate) fn blend<S: Sample>(
         }
         new_grid.buffer_mut()[idx].convert_to_float_modular(bit_depth)?;
 
+        // The alpha channel of the new frame can have a grid region of its own (for example when
+        // only the colour channels are cropped to the filter padding). Take the part of it that
+        // lies under the region being blended, so that it is indexed like the channel itself.
+        let new_alpha_region = match alpha_idx {
+            Some(alpha_idx) => {
+                let alpha_region = new_grid.regions_and_shifts()[alpha_idx + color_channels].0;
+                if clipped_original_frame_region.is_empty() {
+                    Some((alpha_idx, Region::with_size(0, 0)))
+                } else if alpha_region.contains(clipped_original_frame_region) {
+                    let region = clipped_original_frame_region
+                        .translate(-alpha_region.left, -alpha_region.top);
+                    Some((alpha_idx, region))
+                } else {
+                    tracing::error!(
+                        ?alpha_region,
+                        ?clipped_original_frame_region,
+                        "Alpha channel does not cover the region being blended"
+                    );
+                    return Err(jxl_bitstream::Error::ValidationFailed(
+                        "alpha channel does not cover the region being blended",
+                    )
+                    .into());
+                }
+            }
+            None => None,
+        };
+
         let mut blend_params = if clone_empty {
-            let new_alpha = alpha_idx.map(|idx| {
+            let new_alpha = new_alpha_region.map(|(idx, region)| {
+                let Region {
+                    left,
+                    top,
+                    width,
+                    height,
+                } = region;
+                let (left, top) = (left as usize, top as usize);
                 new_grid.buffer()[idx + color_channels]
                     .as_float()
                     .unwrap()
                     .as_subgrid()
+                    .subgrid(left..left + width as usize, top..top + height as usize)
             });
             let premultiplied =
                 alpha_idx.and_then(|idx| image_header.metadata.ec_info[idx].alpha_associated());
@@ -384,11 +419,19 @@ pub(crate) fn blend<S: Sample>(
                 premultiplied,
             )
         } else {
-            let new_alpha = alpha_idx.map(|idx| {
+            let new_alpha = new_alpha_region.map(|(idx, region)| {
+                let Region {
+                    left,
+                    top,
+                    width,
+                    height,
+                } = region;
+                let (left, top) = (left as usize, top as usize);
                 new_grid.buffer()[idx + color_channels]
                     .as_float()
                     .unwrap()
                     .as_subgrid()
+                    .subgrid(left..left + width as usize, top..top + height as usize)
             });
             let premultiplied =
                 alpha_idx.and_then(|idx| image_header.metadata.ec_info[idx].alpha_associated());
@@ -409,19 +452,24 @@ pub(crate) fn blend<S: Sample>(
                 .top
                 .abs_diff(output_frame_region.top) as usize,
         );
-        blend_params.new_topleft = (
-            clipped_original_frame_region
-                .left
-                .abs_diff(original_frame_region.left) as usize,
-            clipped_original_frame_region
-                .top
-                .abs_diff(original_frame_region.top) as usize,
-        );
+        // Both the new channel and its alpha are handed over starting at the clipped region.
+        blend_params.new_topleft = (0, 0);
         blend_params.width = clipped_original_frame_region.width as usize;
         blend_params.height = clipped_original_frame_region.height as usize;
 
+        let new_region = new_grid.regions_and_shifts()[idx].0;
         let new_grid = new_grid.buffer()[idx].as_float().unwrap();
-        blend_single(target_subgrid, new_grid.as_subgrid(), &blend_params);
+        let new_subgrid = if clipped_original_frame_region.is_empty() {
+            new_grid.as_subgrid().subgrid(0..0, 0..0)
+        } else {
+            let left = clipped_original_frame_region.left.abs_diff(new_region.left) as usize;
+            let top = clipped_original_frame_region.top.abs_diff(new_region.top) as usize;
+            new_grid.as_subgrid().subgrid(
+                left..left + clipped_original_frame_region.width as usize,
+                top..top + clipped_original_frame_region.height as usize,
+            )
+        };
+        blend_single(target_subgrid, new_subgrid, &blend_params);
         output_grid.append_channel(target_grid, target_region);
     }
 
